@@ -151,3 +151,57 @@ func ZZVerifC06Engine() {
 	}
 	rt.Reach("end")
 }
+
+// ZZVerifC06TextIndex: maintenance of the text index under edits. Bounded exhaustive histories over two ids of
+// add (two texts sharing the token "apple") / edit of the text through a metadata merge (the token is kept, a
+// word is appended) / delete, then a text-only and a hybrid search for the shared token: only live documents are
+// returned, no duplicates, and the text-only search returns every live document that contains the token.
+func ZZVerifC06TextIndex() {
+	e := zzOpen()
+	rt.Assert(e.VCreate("i0", distance.Euclidean, 2, 4, distance.Float32, "english", nil, nil, nil) == nil, "prelude: VCreate")
+	ids := []string{"a", "b"}
+	live := map[string]bool{}
+	n := rt.IntRange("n", 1, rt.Param("TN", 4))
+	for step := 0; step < n; step++ {
+		id := ids[rt.IntRange("id", 0, 1)]
+		switch rt.IntRange("op", 0, 2) {
+		case 0:
+			text := []string{"apple banana", "apple cherry"}[rt.IntRange("text", 0, 1)]
+			if e.VAdd("i0", id, []float32{float32(step + 1)}, map[string]any{"content": text}) == nil {
+				live[id] = true
+			}
+		case 1:
+			if e.VSetMetadata("i0", id, map[string]any{"content": "apple banana mango"}) == nil {
+				rt.Assert(live[id], "a metadata merge succeeds only on a live id")
+			}
+		case 2:
+			if e.VDelete("i0", id) == nil {
+				live[id] = false
+			}
+		}
+		e.wg.Wait()
+	}
+	nLive := 0
+	for _, id := range ids {
+		if live[id] {
+			nLive++
+		}
+	}
+	hybrid := rt.IntRange("hybrid", 0, 1) == 1
+	qv := []float32{0}
+	if hybrid {
+		qv = []float32{2.5}
+	}
+	res, err := e.VSearch("i0", qv, 3, "", "apple", 0, 0.5, nil)
+	rt.Assert(err == nil, "search succeeds")
+	seen := map[string]bool{}
+	for _, id := range res {
+		rt.Assert(live[id], "text / hybrid search never returns a deleted id")
+		rt.Assert(!seen[id], "no duplicate ids")
+		seen[id] = true
+	}
+	if !hybrid {
+		rt.Assert(len(res) == nLive, "text search returns every live document containing the query term")
+	}
+	rt.Reach("end")
+}
